@@ -66,7 +66,8 @@ typedef struct interactive_s {
     int message_length;         /* message buffer length */
     char message_buf[MESSAGE_BUF_SIZE]; /* message buffer */
     int iflags;                 /* interactive flags */
-    int out_of_band;            /* Send a telnet sync operation            */
+    int out_of_band;            /* telnet Synch pending: number of buffered bytes up to
+                                 * and including the DM to be sent urgent, or 0 */
     int state;                  /* Current telnet state.  Bingly wop       */
     int sb_pos;                 /* Telnet suboption negotiation stuff      */
     BYTE sb_buf[SB_SIZE];
